@@ -44,7 +44,19 @@ func twin(s string) string {
 	return strings.NewReplacer("\u03c3", "\u03c2", "\u03a3", "\u03c2").Replace(s)
 }
 
+// names that are nobody's account but, read as SQL LIKE patterns, match an account name
+var patternNames = map[string]string{
+	"under":  "zo_\u03c3",             // _ for the e-diaeresis of ua
+	"underb": "zo_\u03c3@example.org", // the same for ub
+	"pct":    "%",
+}
+
 func (s Sp) String() string {
+	if s.U == "ux" {
+		if p, ok := patternNames[s.V]; ok {
+			return p
+		}
+	}
 	if c, ok := base[s.U]; ok {
 		if s.V == "fold" {
 			return twin(c)
@@ -69,6 +81,11 @@ var variants = []string{"plain", "upper", "nfd", "wide"}
 // spellingOf is the inverse of Sp.String by exact string comparison (no
 // normalisation happens in the harness); unknown strings map to ?/?.
 func spellingOf(str string) Sp {
+	for v, p := range patternNames {
+		if p == str {
+			return Sp{U: "ux", V: v}
+		}
+	}
 	for u, c := range base {
 		for _, v := range variants {
 			if spell(c, v) == str {
